@@ -633,3 +633,23 @@ mod tests {
         assert_eq!(simple.select(pos.len()), None);
     }
 }
+
+/// Verification hooks (add-only): assemble a structure from raw parts and
+/// inspect its inventories.
+#[cfg(feature = "sux_verif")]
+impl<B, I, const L: usize, const S: usize> SelectAdaptConst<B, I, L, S> {
+    /// # Safety
+    /// The parts must satisfy the invariants established by the constructors.
+    pub unsafe fn verif_from_raw_parts(bits: B, inventory: I, spill: I) -> Self {
+        Self {
+            bits,
+            inventory,
+            spill,
+        }
+    }
+
+    /// Returns (inventory, spill).
+    pub fn verif_raw_parts(&self) -> (&I, &I) {
+        (&self.inventory, &self.spill)
+    }
+}
